@@ -79,6 +79,9 @@ def build(repo, tier):
     fns.append(('proof_generation/proofs/kore.py', 'nary_app (n = 0..12, any symbol)'))
     units.append(Unit('C19/py/Notation.print_instantiation', print_unit(repo), use_lemmas=False))
     units.append(Unit('C19/py/Notation.__call__', call_unit(repo), use_lemmas=False))
+    for flag in (False, True):
+        units.append(Unit(f'C19/py/Instantiate.pretty[simplify_instantiations={flag}]', inst_pretty_unit(repo, flag)))
+    fns.append((PFILE, 'Instantiate.pretty'))
     for fmt in ('Binary', 'Pretty'):
         pass
     units.append(Unit('C19/py/ProofExp.serialize: same pipeline for binary and pretty', serialize_unit(repo), use_lemmas=False))
@@ -187,6 +190,28 @@ def _c19(seed):
             if str(args[i].pretty(opts)) not in shown:
                 return ('fail', 'notation %s/%d: argument %d, on which the definition depends, is not shown: %r' % (nt.label, nt.arity, i, shown), done)
             done += 1
+    # two applications of one notation under ONE options object: different patterns, differently printed arguments -> different renderings
+    fam = [EVar(0), SVar(0), Symbol('s0'), EVar(1), SVar(1), Implies(EVar(0), EVar(1)), App(EVar(0), EVar(1)), Exists(0, EVar(1)), Mu(0, EVar(1)),
+           Implies(SVar(0), SVar(1)), App(SVar(0), SVar(1)), ESubst(MetaVar(0), EVar(0), EVar(1)), SSubst(MetaVar(0), SVar(0), EVar(1))]
+    for nt in notations():
+        deps = sorted(nt.definition.metavars())
+        if not deps or nt.arity > 4:
+            continue
+        opts = PrettyOptions(notations={nt.definition: nt})
+        base = [Symbol('ARG%dX' % i) for i in range(nt.arity)]
+        seen = {}
+        for pos in deps:
+            for v in fam:
+                args = list(base); args[pos] = v
+                ap = nt(*args)
+                shown = ap.pretty(opts)
+                key = (pos, v.pretty(opts))
+                for (pos2, r2), (ap2, shown2) in seen.items():
+                    if shown2 == shown and ap2.simplify() != ap.simplify() and (pos2 != pos or r2 != key[1]):
+                        return ('fail', 'notation %s: applications %r and %r denote different patterns and differ in the rendering of an argument, but both print as %r (same options object)'
+                                % (nt.label, ap2, ap, shown), done)
+                seen[key] = (ap, shown)
+                done += 1
     big = App(App(Symbol('cfg'), long_chain(12)), long_chain(14))
     la = ProofExp(axioms=[long_chain(30)], claims=[long_chain(30)])
     la._proof_expressions = [la.load_axiom(la._axioms[0])]
@@ -250,6 +275,65 @@ def print_unit(repo):
         ctx.cover('print_instantiation returned')
         ctx.oblige('post:rendering is the format string applied to the renderings of the arguments in key order', z3.BoolVal(bool(ok)), kind='post',
                    got=repr(res))
+        return res
+    return unit
+
+
+def inst_pretty_unit(repo, simplify_flag):
+    """Instantiate.pretty(opts): with a registered notation for self.pattern the result is exactly that notation's print_instantiation(self, opts);
+    with simplify_instantiations the rendering of self.simplify(); in every case the options object is left as it was (no state carried between renderings)."""
+    def unit(ctx):
+        from contracts.pattern_family import eq_contract, c12_contracts
+        cs = c12_contracts(None)
+        interp = Interp(repo, ctx, dict(cs))
+        ncls = repo.cls(PM, 'Notation')
+        d = ctx.input('ppat', 'definition')
+        d2 = ctx.input('ppat', 'registered')
+        n = Obj(ncls, {'label': 'n', 'arity': 3, 'definition': d2, 'format_str': SStr([('name', ctx.input('name', 'format_str').t)])})
+        args = [ctx.input('ppat', f'arg{i}') for i in range(3)]
+        applied = interp.mk_pat('Instantiate', [d, {0: args[0], 1: args[1], 2: args[2]}])
+        notations = {d2: n}
+        opts = Obj(repo.cls(PM, 'PrettyOptions'), {'simplify_instantiations': simplify_flag, 'notations': notations})
+        before = dict(opts.attrs)
+        calls, pcalls = [], []
+        from vc.spec import pwf
+        ctx.assume(z3.And(pwf(applied.t), pwf(d2.t)))
+        ctx.check_feasible()
+
+        class PrettyC:
+            name = 'Pattern.pretty'
+
+            def apply(self, interp, ctx, a, kwargs=None):
+                if len(a) < 2 or a[1] is not opts:
+                    raise Unsupported('pretty() called with other options than the ones it was given')
+                pcalls.append(a[0])
+                return SStr([('pretty', z3.simplify(a[0].t).sexpr())])
+
+        class PrintC:
+            name = 'Notation.print_instantiation'
+
+            def apply(self, interp, ctx, a, kwargs=None):
+                calls.append(a)
+                return SStr([('print_instantiation', id(a[0]), z3.simplify(a[1].t).sexpr())])
+        interp.contracts['Pattern.pretty'] = PrettyC()
+        interp.contracts['Notation.print_instantiation'] = PrintC()
+        f = repo.func(PM, 'Instantiate.pretty')
+        res = interp.run_function(f, [applied, opts])
+        ctx.cover('Instantiate.pretty returned')
+        frame = set(opts.attrs) == set(before) and all(opts.attrs[k] is before[k] for k in before) and list(notations.items()) == [(d2, n)]
+        ctx.oblige('frame:the options object is unchanged', z3.BoolVal(bool(frame)), kind='frame', attrs=sorted(opts.attrs))
+        if simplify_flag:
+            ok = len(pcalls) == 1 and isinstance(res, SStr) and res.key() == SStr([('pretty', z3.simplify(pcalls[0].t).sexpr())]).key()
+            ctx.oblige('post:rendering of one pattern', z3.BoolVal(bool(ok)), kind='post', got=repr(res))
+            if ok:
+                ctx.oblige('post:the rendered pattern denotes the same pattern as this application', expand(pcalls[0].t) == expand(applied.t), kind='post')
+        elif calls:
+            ok = (len(calls) == 1 and calls[0][0] is n and z3.simplify(calls[0][1].t).eq(z3.simplify(applied.t)) and calls[0][2] is opts
+                  and isinstance(res, SStr) and res.key() == SStr([('print_instantiation', id(n), z3.simplify(applied.t).sexpr())]).key())
+            ctx.oblige('post:rendering is the registered notation\'s print_instantiation of this application', z3.BoolVal(bool(ok)), kind='post', got=repr(res))
+            ctx.oblige('post:a notation is used only for its own definition', expand(d.t) == expand(d2.t), kind='post')
+        else:
+            ctx.oblige('post:a registered notation is not bypassed', expand(d.t) != expand(d2.t), kind='post')
         return res
     return unit
 
